@@ -1,7 +1,7 @@
 (* C14 - Ergodicity predicates agree with the transition graph.
    Statements only; proofs in Proofs/ErgodicFacts.v (on Proofs/QMatFacts.v). *)
 From Coq Require Import List ZArith Arith Bool QArith Qcanon.
-From MsmV Require Import Lib.Result Lib.PyList Lib.QMat Model.Ergodic Proofs.QMatFacts Proofs.ErgodicFacts Proofs.ErgodicFinite Proofs.Wielandt Proofs.ErgodicFull.
+From MsmV Require Import Lib.Result Lib.PyList Lib.QMat Model.Ergodic Proofs.QMatFacts Proofs.ErgodicFacts Proofs.ErgodicFinite Proofs.Wielandt Proofs.ErgodicFull Proofs.MaskFacts Proofs.MaskCorollary.
 Import ListNotations.
 Local Open Scope nat_scope.
 
@@ -48,6 +48,51 @@ Theorem bpow_wexp_iff_graph_thm : forall n G, bwf n G -> 0 < n ->
   (ball (bpow G (wexp n)) = true <-> strongly_connected G /\ aperiodic G).
 Proof. exact bpow_wexp_iff_graph. Qed.
 Print Assumptions bpow_wexp_iff_graph_thm.
+
+(* ---- the mask clause ---- *)
+(* the lazy closure (I or G)^(n-1) decides reachability *)
+Theorem reach_spec_thm : forall n G i j, bwf n G -> 0 < n -> i < n -> j < n ->
+  (bget (reach G) i j = true <-> reachable G i j).
+Proof. exact reach_spec. Qed.
+Print Assumptions reach_spec_thm.
+
+(* for a state whose closed-walk lengths have gcd 1, "walks of length (n-1)^2+1 in both directions"
+   is exactly "same communicating class" (Wielandt's bound inside the class) *)
+Theorem sym_power_is_class_thm : forall n G i j, bwf n G -> 0 < n -> i < n -> j < n -> aperiodic_at G i ->
+  (walk G (wexp n) i j /\ walk G (wexp n) j i <-> comm G i j).
+Proof. exact sym_power_is_class. Qed.
+Print Assumptions sym_power_is_class_thm.
+
+Theorem sym_power_acyclic_thm : forall n G i j, bwf n G -> 0 < n -> i < n -> ~ cyclic G i ->
+  ~ (walk G (wexp n) i j /\ walk G (wexp n) j i).
+Proof. exact sym_power_acyclic. Qed.
+Print Assumptions sym_power_acyclic_thm.
+
+(* the executable mask: when every class with a cycle is aperiodic, the mask marks exactly the
+   states whose communicating class has maximal size (states on no cycle count as size 0) *)
+Theorem ergodic_mask_classes_thm : forall n M mask, 0 < n -> wf n n M -> entries_nonneg M -> rows_sum_one M ->
+  is_tmat atol8 M = true -> power_threshold_free n M ->
+  (forall i, i < n -> cyclic (supp M) i -> aperiodic_at (supp M) i) ->
+  ergodic_mask atol8 M = Ok mask ->
+  length mask = n /\
+  forall i, i < n -> (nth i mask false = true <-> forall j, j < n -> csize (supp M) j <= csize (supp M) i).
+Proof. exact ergodic_mask_classes. Qed.
+Print Assumptions ergodic_mask_classes_thm.
+
+(* ... in the wording of the property: if the largest closed class is larger than every class that
+   is not closed, the mask marks exactly the states of the largest closed class (classes, on ties) *)
+Theorem mask_largest_closed_thm : forall n M mask c, 0 < n -> wf n n M -> entries_nonneg M -> rows_sum_one M ->
+  is_tmat atol8 M = true -> power_threshold_free n M ->
+  (forall i, i < n -> cyclic (supp M) i -> aperiodic_at (supp M) i) ->
+  ergodic_mask atol8 M = Ok mask ->
+  let G := supp M in
+  c < n -> class_closed G (reach G) c = true ->
+  (forall j, j < n -> class_closed G (reach G) j = true -> csize G j <= csize G c) ->
+  (forall j, j < n -> class_closed G (reach G) j = false -> csize G j < csize G c) ->
+  forall i, i < n ->
+    (nth i mask false = true <-> class_closed G (reach G) i = true /\ csize G i = csize G c).
+Proof. exact mask_largest_closed. Qed.
+Print Assumptions mask_largest_closed_thm.
 
 (* special case kept from the first development: lazily connected graphs with a self-loop
    (the regime of metastable MD models) already have all walks of every length >= 2(n-1) *)
